@@ -6,6 +6,7 @@ import (
 	"math/rand"
 	"runtime"
 	"sort"
+	"strings"
 	"sync"
 
 	neatmath "github.com/yaricom/goNEAT/v4/neat/math"
@@ -445,6 +446,22 @@ func c18Registry(c *Ctx) {
 			return
 		}
 	}
+	// a systematic corpus of strings: whatever is not one of the registered names, letter for letter, must be refused, and a
+	// string that is accepted must be the name of the code it resolves to (names and codes map one-to-one)
+	for _, s := range c18NameCorpus(names) {
+		c.Eval(1)
+		t, err := factory.ActivationTypeFromName(s)
+		code, isName := names[s]
+		switch {
+		case isName && (err != nil || int(t) != code):
+			c.Violate("registry-roundtrip", map[string]interface{}{"key": s}, "registered name %q resolves to (%d, %v), its code is %d", s, t, err, code)
+			return
+		case !isName && err == nil:
+			c.Violate("unknown-name", map[string]interface{}{"key": s}, "unknown name %q resolved to type %d instead of an error", s, t)
+			return
+		}
+		c.Count("registry.corpus_strings", 1)
+	}
 	c.Sample(map[string]interface{}{"registered_codes": registered, "codes_enumerated": 256, "names": len(names)})
 }
 
@@ -580,4 +597,39 @@ func c18Concurrent(c *Ctx) {
 			return
 		}
 	}
+}
+
+// c18NameCorpus lists strings around the registered names and around the type codes: numerals in several notations (the
+// codes themselves, codes plus multiples of 2^8, 2^16, 2^32, negative, padded, signed, hexadecimal, fractional), every proper
+// prefix and suffix of every name, every name with one character deleted, doubled or changed in case, names with white space or
+// separators around them, and pairs of names joined.
+func c18NameCorpus(names map[string]int) []string {
+	var out []string
+	for i := -300; i <= 1300; i++ {
+		out = append(out, fmt.Sprint(i))
+	}
+	for _, base := range []int64{1 << 8, 1 << 16, 1 << 24, 1 << 31, 1 << 32, 1 << 40, 1 << 62} {
+		for k := int64(-2); k < 40; k++ {
+			out = append(out, fmt.Sprint(base+k), fmt.Sprint(-base+k), fmt.Sprint(2*base+k))
+		}
+	}
+	for k := 0; k < 40; k++ {
+		out = append(out, fmt.Sprintf("%02d", k), fmt.Sprintf("%03d", k), fmt.Sprintf("+%d", k), fmt.Sprintf(" %d", k), fmt.Sprintf("%d ", k),
+			fmt.Sprintf("0x%x", k), fmt.Sprintf("0X%X", k), fmt.Sprintf("%#o", k), fmt.Sprintf("0b%b", k), fmt.Sprintf("%d.0", k), fmt.Sprintf("%de0", k),
+			fmt.Sprintf("18446744073709551%03d", 616+k), fmt.Sprintf("%d_", k), fmt.Sprintf("#%d", k))
+	}
+	var sorted []string
+	for n := range names {
+		sorted = append(sorted, n)
+	}
+	sort.Strings(sorted)
+	for i, n := range sorted {
+		for k := 0; k < len(n); k++ {
+			out = append(out, n[:k], n[k+1:], n[:k]+n[k+1:], n[:k]+strings.ToUpper(n[k:k+1])+n[k+1:], n[:k]+strings.ToLower(n[k:k+1])+n[k+1:], n[:k]+n[k:k+1]+n[k:])
+		}
+		out = append(out, strings.ToLower(n), strings.ToUpper(n), " "+n, n+" ", "\t"+n, n+"\n", n+"\x00", "\""+n+"\"", n+",", n+";", "math."+n, n+"()", n+n,
+			strings.TrimSuffix(n, "Activation"), strings.TrimSuffix(n, "Activation")+"activation", strings.TrimSuffix(n, "Activation")+"_activation",
+			n+sorted[(i+1)%len(sorted)], n+" "+sorted[(i+1)%len(sorted)], n+"|"+sorted[(i+1)%len(sorted)], n)
+	}
+	return out
 }
